@@ -126,7 +126,14 @@ pub fn run_check(prop: &str, tier: &str) -> i32 {
             crate::polmat::part(&mut run, tier == "thorough", &["C11."]);
             run.finish()
         }
-        "C12" => crate::ftamper::check_c12(prop, tier),
+        "C12" => {
+            let mut run = Run::new(prop, tier, "fault_enumeration");
+            crate::ftamper::part_c12(&mut run, tier);
+            // the same layers over histories: ciphertexts made once are decrypted again, on the
+            // same instance, after every rekey / prune / deletion / refresh
+            histex_part(&mut run, tier, &[hp("pke", 3, 4)], &["C12."], HX);
+            run.finish()
+        }
         "C13" => {
             let mut run = Run::new(prop, tier, "model_checking");
             histex_part(&mut run, tier, &[hp("rt", 4, 5), hp("edit", 3, 4), hp("trace", 3, 4)], &["C13."], HX);
